@@ -20,4 +20,7 @@ class SizeExtractor:
             if os.path.islink(backup_copy):
                 return 0
             else:
-                raise
+                # a .trashinfo without its file in files/ (e.g. left by an
+                # interrupted trash-put): its size is unknown, the listing
+                # goes on with the other entries
+                return "?"
